@@ -95,6 +95,12 @@ def check_one(mods, d, schema, instance, fmt=False):
             return "module validate() raised an error that still has a context"
         if ident(mod) not in [ident(c) for c in cl]:
             return "module validate() raised an error that is not in the context closure of iter_errors"
+        try:
+            bm = exceptions.best_match(cls(schema, **kw).iter_errors(instance))
+        except Exception:      # noqa
+            bm = None
+        if bm is not None and ident(bm) != ident(mod):
+            return "module validate() raised %r, best_match(iter_errors) is %r" % (ident(mod), ident(bm))
     return None
 
 
